@@ -32,7 +32,9 @@ def run(rep, facts, tier):
     rep.rule('C04.R1', 'operands are never modified: buffer mutation only through data_mut (COW) on an owned receiver; range of a borrowed receiver written only by read')
     rep.rule('C04.R2', 'length-relative and accumulating buffer writes are dominated by normalisation of the buffer to the value')
     rep.rule('C04.R3', 'who reads raw buffer bytes: only the offset-aware primitives (bit iterator, iter8/cut_bits, to_uint) and slice() behind its alignment test')
+    rep.rule('C04.R4', 'positions handed to the public methods are relative to the value: a range bound computed from a position argument adds range.start')
     check_raw_readers(rep, fx)
+    check_relative_positions(rep, fx)
     dm = fx.need(DM)
     # ---------- R1
     from .. import inline, stepfx
@@ -289,6 +291,49 @@ def check_raw_readers(rep, fx):
                     '%s turns `slice() == None` into an error: the operation works for a value that happens to be byte-aligned in its '
                     'buffer and fails for an equal value that is not (`|0aabbcc| open-bitstr 4 bits drop |bb| find`)' % short(fn), fn, t.get('at'))
     rep.add('C04.R3', 'C04.R3:slice-none-callers-counted', True, '%d places map slice() == None to an error' % n_s, None, None, nontrivial=False)
+
+
+def check_relative_positions(rep, fx):
+    """`x.seek(8)` must skip 8 bits of x whether x starts at bit 0 of its buffer or at bit 8 of somebody else's.  In every
+    public method of Bitstr, a new range bound that depends on a usize parameter must also depend on the value's own start
+    (start + n); a bound that is the parameter itself is a position inside the backing buffer."""
+    tr = {'bitstr::Bitstr': {'range'}}
+    n = 0
+    for fn in sorted(fx.fns):
+        if not fn.startswith('bitstr::Bitstr::') or '{closure' in fn:
+            continue
+        f = fx.fns[fn]
+        if f.j.get('vis') != 'pub':
+            continue
+        params = [k for k in range(2, f.argc + 1) if f.local_ty(k) == 'usize']
+        if not params:
+            continue
+        bad = []
+        seen = False
+        for bb in f.reachable_blocks():
+            for st in f.blocks[bb]['stmts']:
+                if st['k'] != 'assign' or not st['lhs']['p']:
+                    continue
+                names = [x.get('f') if isinstance(x, dict) else x for x in st['lhs']['p']]
+                if 'range' not in names:
+                    continue
+                e = f.expr_of_rvalue(st['rv'], 0, frozenset())
+                args = {x[1] for x in expr_walk(e) if isinstance(x, tuple) and x[0] == 'arg' and x[1] in params}
+                if not args:
+                    continue
+                seen = True
+                txt = expr_str(e, -20)
+                relative = ('range.start' in txt or 'Bitstr::start' in txt) and ('Add' in txt or 'checked_add' in txt)
+                if not relative:
+                    bad.append(txt[:50])
+        if not seen:
+            continue
+        n += 1
+        rep.add('C04.R4', 'C04.R4:absolute-position:%s' % fn, not bad,
+                'range bounds are start + argument' if not bad else
+                '%s stores its position argument as a range bound as it is (%s): the position is an offset into the backing buffer, so the '
+                'method answers differently for two equal values that start at different bits' % (short(fn), bad[0]), fn, f.j['span'])
+    rep.floor('C04.R4 public methods that move a range bound by an argument', n, 4)
 
 
 def _unconditional(f, bb, dom):
